@@ -25,9 +25,17 @@ import (
 )
 
 func mkDistModel(name string, rmgaps bool, gapmut int) (dna.DistModel, error) {
+	// "pdistamb" = pdist with SetRemoveAmbiguous(true) (command line --rm-ambiguous)
+	rmamb := name == "pdistamb"
+	if rmamb {
+		name = "pdist"
+	}
 	m, err := dna.Model(name, rmgaps)
 	if err != nil {
 		return nil, err
+	}
+	if pm, ok := m.(*dna.PDistModel); ok && rmamb {
+		pm.SetRemoveAmbiguous(true)
 	}
 	switch x := m.(type) {
 	case *dna.RawDistModel:
